@@ -71,7 +71,12 @@ Definition all_bytes : list byte :=
   map (fun n => match Byte.of_N (N.of_nat n) with Some b => b | None => x00 end) (seq 0 256).
 
 Lemma all_bytes_complete : forall b, In b all_bytes.
-Proof. intros b; destruct b; vm_compute; tauto. Qed.
+Proof.
+  intros b. unfold all_bytes. apply in_map_iff.
+  exists (N.to_nat (Byte.to_N b)). split.
+  - rewrite N2Nat.id, Byte.of_to_N. reflexivity.
+  - apply in_seq. pose proof (Byte.to_N_bounded b). lia.
+Qed.
 
 Lemma forall_bytes (P : byte -> bool) :
   forallb P all_bytes = true -> forall b, P b = true.
